@@ -3,6 +3,7 @@ Bounded-exhaustive enumeration of a finite parametrised signal family x configur
 the real packet-level decoder (harness/c06_quality.c); every member is judged, nothing is sampled."""
 import sys, os, time, json, itertools, subprocess
 import vlib
+import c06_sched as S
 
 PID = 'C06'
 RATES = [8000, 22050, 44100, 96000]
@@ -178,7 +179,7 @@ def judge(m, r):
         info['id_judged'] = True
         if ids != list(range(ch)):
             v.append(('channel_permuted:%s:%s' % (cls, cfg), 'best-correlated input channel per output channel %s (must be identity), margin %s: %s' % (ids, d['idm'], m['case'])))
-    if cls in BANDLIMITED and FLOOR:   # (over-range class t2x: finiteness / peak / identity only)
+    if cls in BANDLIMITED and FLOOR and m['q'] in QS:   # (over-range class t2x: finiteness / peak / identity only; no table for the negative-quality members of the schedule slice)
         info['snr_judged'] = True
         f = FLOOR[cls][m['mode']][QS.index(m['q'])]
         if min(snr) < f:
@@ -199,6 +200,66 @@ def judge_gap_pair(m, info_loud, info_alone):
     if sl < f:
         v.append(('levelgap_snr_below_floor:gap:%s' % cfg, 'quiet channel 1 (%d Hz two-tone at %d dBFS) next to loud channels: SNR %.2f dB below floor %.1f dB: %s' % (hz, db, sl, f, m['case'])))
     return v, sa - sl
+
+
+# ---- submission-schedule axis (pylib/c06_sched.py) ------------------------------------------------------------------
+# Windowed SNR floor, dB: WFLOOR[class][mode][q] for the continuous band-limited classes: minimum over the thorough schedule slice (every
+# configuration x signal x schedule; every complete 1024-sample window that starts at or after 2 x blocksizes[1] and whose input energy is within
+# 20 dB of the member's mean window energy; non-LFE channels) of the window's SNR against the input, minus 6 dB, rounded down to 0.1, then made
+# non-decreasing in q by lowering.  Regenerate with VERIF_C06_MEASURE=1 VERIF_C06_ONLY=sched bin/check C06 --tier thorough.
+# Measured 2026-09-29 on /repo ee2b4f0 (unchanged): 37758 executed cases (1302 configuration x signal groups x 29 schedules), none violating.
+WMEASURED = {
+    't2': {'q': {-0.1: 17.77, 0: 12.19, 0.3: 16.94, 0.5: 22.06, 0.8: 31.88, 1: 33.54}, 'a': {-0.1: 22.19, 0: 15.74, 0.3: 24.22, 0.5: 29.23, 0.8: 36.51, 1: 22.13}},
+    't5': {'q': {-0.1: 5.52, 0: 5.99, 0.3: 15.78, 0.5: 18.74, 0.8: 27.45, 1: 32.78}, 'a': {-0.1: 8.48, 0: 7.37, 0.3: 22.03, 0.5: 23.66, 0.8: 34.06, 1: 37.17}},
+    'sw': {'q': {-0.1: 0.52, 0: 0.48, 0.3: 11.54, 0.5: 15.82, 0.8: 28.39, 1: 33.35}, 'a': {-0.1: 5.68, 0: 0.78, 0.3: 12.21, 0.5: 16.72, 0.8: 31.77, 1: 35.14}},
+    'nz': {'q': {-0.1: 2.36, 0: 0.89, 0.3: 6.27, 0.5: 10.89, 0.8: 18.22, 1: 21.08}, 'a': {-0.1: 3.40, 0: -1.42, 0.3: 9.08, 0.5: 15.64, 0.8: 20.77, 1: 23.71}},
+}
+WFLOOR = {
+    't2': {'q': {-0.1: 6.1, 0: 6.1, 0.3: 10.9, 0.5: 16.0, 0.8: 25.8, 1: 27.5}, 'a': {-0.1: 9.7, 0: 9.7, 0.3: 16.1, 0.5: 16.1, 0.8: 16.1, 1: 16.1}},
+    't5': {'q': {-0.1: -0.5, 0: -0.1, 0.3: 9.7, 0.5: 12.7, 0.8: 21.4, 1: 26.7}, 'a': {-0.1: 1.3, 0: 1.3, 0.3: 16.0, 0.5: 17.6, 0.8: 28.0, 1: 31.1}},
+    'sw': {'q': {-0.1: -5.6, 0: -5.6, 0.3: 5.5, 0.5: 9.8, 0.8: 22.3, 1: 27.3}, 'a': {-0.1: -5.3, 0: -5.3, 0.3: 6.2, 0.5: 10.7, 0.8: 25.7, 1: 29.1}},
+    'nz': {'q': {-0.1: -5.2, 0: -5.2, 0.3: 0.2, 0.5: 4.8, 0.8: 12.2, 1: 15.0}, 'a': {-0.1: -7.5, 0: -7.5, 0.3: 3.0, 0.5: 9.6, 0.8: 14.7, 1: 17.7}},
+}
+# Differential bound between schedules, dB: in no such window may the error energy (in-out) under a schedule exceed the error energy of the same window
+# under the reference schedule (1024-sample submissions) by more than SCHED_DIFF_DB (error energies 60 dB below the mean window energy count as equal).
+# Outputs of different schedules are mostly, but not always, bit-identical beyond the stream start: a different amount of look-ahead at the first
+# blockouts can move a block-size decision (and with it the whole later block grid), and the ABR reservoir carries the difference on.
+SCHED_DIFF_MEASURED = ('303342 of 304500 windows beyond 2 x blocksizes[1] bit-identical to the output of 1024-sample submissions, 238 of 36456 non-reference cases differ in some such window; '
+                       'largest growth of a window\'s error energy 5.95 dB in the thorough slice (44100 Hz mono ABR q=-0.1 two-tone, whole-signal submission) and 7.35 dB in a wider exploratory sweep '
+                       'with 30000..57600-sample signals (38106 cases; 96000 Hz 3 ch q=0 sweep, whole-signal submission)')
+SCHED_DIFF_DB = 10.4     # 7.35 dB + 3 dB margin, rounded up
+
+
+def wfloor(cls, mode, q):
+    t = WFLOOR.get(cls, {}).get(mode, {})
+    return t.get(q) if cls in S.CONTINUOUS else None
+
+
+def judge_sched(m, r, refw):
+    """m: schedule member (member dict + 'sched'); r: harness result text; refw: S.parse_windows() of the reference-schedule result of the same
+    configuration/signal (None: not available).  -> (status, [(key, desc)], info, parsed windows or None, window view or None)"""
+    st, v, info = judge(m, r)
+    sc = m['sched']
+    v = [('sched:%s:%s' % (sc, k), 'schedule %s: %s' % (sc, d)) for k, d in v]
+    if st != 'ok':
+        return st, v, info, None, None
+    d = parse(r)
+    if 'ws' not in d:
+        return 'bad', [('executor:no_window_view:%s' % sc, 'member %s: %s' % (m['case'], r[:300]))], info, None, None
+    w = S.parse_windows(d)
+    nch = 5 if is51(m['ch'], m['rate']) else m['ch']
+    wf = wfloor(m['cls'], m['mode'], m['q'])
+    view = S.window_view(w, refw if refw is not None else w, nch, wf, SCHED_DIFF_DB if SCHED_DIFF_DB is not None else 1e9)
+    cfg = 'r%d:c%d:%s%g' % (m['rate'], m['ch'], m['mode'], m['q'])
+    if view['floor_hits']:
+        c, k, s = min(view['floor_hits'], key=lambda x: x[2])
+        v.append(('sched:%s:window_snr_floor:%s' % (sc, m['cls']), 'schedule %s, %s, channel %d, window %d (samples %d..%d): SNR against the input %.2f dB below the windowed floor(%s,%s,q=%g)=%.1f dB (%d windows below): %s'
+                  % (sc, cfg, c, k, k * S.WLEN, (k + 1) * S.WLEN - 1, s, m['cls'], m['mode'], m['q'], wf, len(view['floor_hits']), m['case'])))
+    if refw is not None and view['diff_hits']:
+        c, k, s, sr = max(view['diff_hits'], key=lambda x: x[3] - x[2])
+        v.append(('sched:%s:window_snr' % sc, 'schedule %s, %s %s, channel %d, window %d (samples %d..%d, first window judged %d): SNR against the input %.2f dB, but %.2f dB with %s submissions of the same signal (error energy may grow by at most %.1f dB; %d windows beyond that): %s'
+                  % (sc, m['cls'], cfg, c, k, k * S.WLEN, (k + 1) * S.WLEN - 1, view['k0'], s, sr, S.REF, SCHED_DIFF_DB, len(view['diff_hits']), m['case'])))
+    return st, v, info, w, view
 
 
 def exe_():
@@ -245,6 +306,119 @@ def clamp_variant():
     return vlib.harness('plain', 'c06_quality_clampvariant', extra='-O3 -march=native', srcs=[os.path.join(vlib.ROOT, 'harness', 'c06_quality.c'), opath])
 
 
+def sched_members(tier):
+    """the schedule slice: (configuration x signal) groups, each encoded under every schedule of the tier"""
+    batch = []
+    groups = [(rate, ch, mode, q, n, cls, sig) for rate, ch, mode, q, n in S.configs(tier, RATES, CHS, QS, MODES) for cls, sig in (S.SIG_QUICK if tier == 'quick' else S.SIG_THOROUGH)]
+    groups += S.long_members(tier)
+    for rate, ch, mode, q, n, cls, sig in groups:
+        base = mkcase(rate, ch, mode, q, n, sig)
+        for sc in S.schedules(tier):
+            batch.append({'cls': cls, 'rate': rate, 'ch': ch, 'mode': mode, 'q': q, 'n': n, 'sig': sig, 'sched': sc, 'case': base + ' ' + sc, 'ref_case': base + ' ' + S.REF})
+    return batch
+
+
+def run_sched(chk, exe, tier, batch, measure, samples):
+    """executes and judges the schedule slice; emits violations; -> stats dict"""
+    res = vlib.run_cases(exe, [m['case'] for m in batch], tag='c06s')
+    st_ = {'cases': len(batch), 'cases_ok': 0, 'cases_skipped': 0, 'cases_passed': 0, 'groups': 0, 'groups_all_schedules_ok': 0, 'schedules': list(S.schedules(tier)), 'by_schedule': {},
+           'far_windows': 0, 'far_windows_bit_identical_to_reference': 0, 'cases_bit_identical_to_reference_in_all_far_windows': 0, 'snr_windows_judged': 0, 'diff_windows_judged': 0,
+           'worst_window_snr_margin_dB': None, 'worst_window_snr_margin_at': None, 'max_window_deficit_dB': None, 'max_window_deficit_at': None,
+           'lag_judged': 0, 'id_judged': 0, 'snr_judged': 0, 'length_gt_6_long_blocks': 0, 'violations': 0, 'cases_skipped_other_than_abr_at_96000': 0, 'first_window_judged': {}}
+    bys = {sc: {'cases': 0, 'submissions_min': None, 'submissions_max': None, 'buffered_at_preextrapolation_gt_centerW_plus_2_long': 0,
+                'buffered_minus_centerW_minus_2_long': {}} for sc in S.schedules(tier)}
+    refs = {}
+    for m, r in zip(batch, res):
+        if m['sched'] == S.REF and (r or '').startswith('ok ') and ' ws=' in r:
+            refs[m['ref_case']] = S.parse_windows(parse(r))
+    wmeas = {}   # (cls, mode, q) -> (min windowed snr, where)
+    groups = {}
+    for m, r in zip(batch, res):
+        chk.cov['evaluations'] += 1
+        g = groups.setdefault(m['ref_case'], {'n': 0, 'ok': 0})
+        g['n'] += 1
+        st, v, info, w, view = judge_sched(m, r, refs.get(m['ref_case']))
+        if st == 'skip':
+            st_['cases_skipped'] += 1
+            st_['cases_skipped_other_than_abr_at_96000'] += not (m['rate'] == 96000 and m['mode'] == 'a')
+            g['skip'] = True
+            continue
+        if st == 'ok' and w is not None and m['ref_case'] not in refs:
+            v.append(('sched:%s:no_reference' % m['sched'], 'the reference schedule of this member did not produce a result: %s' % m['ref_case']))
+        for key, desc in v:
+            st_['violations'] += 1
+            rep = {'case': m['case'], 'member': m, 'result': (r or '')[:600]}
+            if view is not None:
+                rep['window_view'] = {k: view[k] for k in ('k0', 'nw', 'min_snr', 'min_at', 'max_deficit', 'deficit_at')}
+                rep['windows_failing'] = {'floor': view['floor_hits'][:20], 'differential(channel, window, snr, snr under reference schedule)': view['diff_hits'][:20]}
+            chk.violation(key, desc, rep)
+        if st != 'ok' or w is None:
+            continue
+        st_['cases_ok'] += 1
+        g['ok'] += 1
+        st_['cases_passed'] += not v
+        b = bys[m['sched']]
+        b['cases'] += 1
+        b['submissions_min'] = w['nsub'] if b['submissions_min'] is None else min(b['submissions_min'], w['nsub'])
+        b['submissions_max'] = w['nsub'] if b['submissions_max'] is None else max(b['submissions_max'], w['nsub'])
+        over = w['pre_cur'] - w['pre_cw'] - 2 * w['bs1']
+        b['buffered_at_preextrapolation_gt_centerW_plus_2_long'] += over > 0
+        ko = str(over) if -2 <= over <= 2 else ('<-2' if over < 0 else '>2')
+        b['buffered_minus_centerW_minus_2_long'][ko] = b['buffered_minus_centerW_minus_2_long'].get(ko, 0) + 1
+        st_['length_gt_6_long_blocks'] += m['n'] > 6 * w['bs1']
+        st_['first_window_judged'][str(view['k0'])] = st_['first_window_judged'].get(str(view['k0']), 0) + 1
+        st_['far_windows'] += view['far']
+        st_['far_windows_bit_identical_to_reference'] += view['identical']
+        st_['cases_bit_identical_to_reference_in_all_far_windows'] += (view['identical'] == view['far'] and m['sched'] != S.REF)
+        st_['diff_windows_judged'] += view['diff_windows'] if m['sched'] != S.REF else 0
+        st_['lag_judged'] += info['lag_judged']
+        st_['id_judged'] += info['id_judged']
+        st_['snr_judged'] += info['snr_judged']
+        where = '%s ch%d window %d' % (m['case'], (view['min_at'] or (0, 0))[0], (view['min_at'] or (0, 0))[1])
+        wf = wfloor(m['cls'], m['mode'], m['q'])
+        if view['min_snr'] is not None and m['cls'] in S.CONTINUOUS:
+            k = (m['cls'], m['mode'], m['q'])
+            if not [1 for key, _ in v if 'window_snr_floor' not in key] and view['min_snr'] < wmeas.get(k, (1e9,))[0]:
+                wmeas[k] = (view['min_snr'], where)
+            if wf is not None:
+                st_['snr_windows_judged'] += view['snr_windows']
+                if st_['worst_window_snr_margin_dB'] is None or view['min_snr'] - wf < st_['worst_window_snr_margin_dB']:
+                    st_['worst_window_snr_margin_dB'], st_['worst_window_snr_margin_at'] = round(view['min_snr'] - wf, 2), where + ' (floor %.1f)' % wf
+        if m['sched'] != S.REF and view['max_deficit'] is not None and (st_['max_window_deficit_dB'] is None or view['max_deficit'] > st_['max_window_deficit_dB']):
+            st_['max_window_deficit_dB'] = round(view['max_deficit'], 2)
+            st_['max_window_deficit_at'] = '%s ch%d window %d' % (m['case'], view['deficit_at'][0], view['deficit_at'][1])
+        if len(samples) < 12 and m['sched'] in ('R', 'D+1,x1024', 'G') and m['cls'] == 'sw' and m['ch'] == 2:
+            samples.append({'case': m['case'], 'class': m['cls'] + '@sched', 'result': (r or '').split(' ws=')[0][:330]})
+    st_['groups'] = len(groups)
+    st_['groups_all_schedules_ok'] = sum(1 for g in groups.values() if g['ok'] == g['n'])
+    st_['groups_skipped_by_encoder_setup'] = sum(1 for g in groups.values() if g.get('skip'))
+    st_['by_schedule'] = bys
+    st_['diff_bound_dB'] = SCHED_DIFF_DB
+    st_['window_snr_floor_table_dB'] = {c: {mo: {str(q): f for q, f in t.items()} for mo, t in WFLOOR[c].items()} for c in WFLOOR}
+    if measure:
+        import math
+        qs_ = sorted(set(k[2] for k in wmeas))
+        print('SCHED max window deficit: %s dB at %s' % (st_['max_window_deficit_dB'], st_['max_window_deficit_at']))
+        print('WMEASURED = {')
+        for cls in S.CONTINUOUS:
+            print("    '%s': {%s}," % (cls, ', '.join("'%s': {%s}" % (mo, ', '.join('%g: %.2f' % (q, wmeas[(cls, mo, q)][0]) for q in qs_ if (cls, mo, q) in wmeas)) for mo in MODES)))
+        print('}')
+        print('WFLOOR = {')
+        for cls in S.CONTINUOUS:
+            rows = []
+            for mo in MODES:
+                qq = [q for q in qs_ if (cls, mo, q) in wmeas]
+                f = [math.floor((wmeas[(cls, mo, q)][0] - 6.0) * 10) / 10 for q in qq]
+                for i in range(len(f) - 2, -1, -1):
+                    f[i] = min(f[i], f[i + 1])
+                rows.append("'%s': {%s}" % (mo, ', '.join('%g: %.1f' % (q, x) for q, x in zip(qq, f))))
+            print("    '%s': {%s}," % (cls, ', '.join(rows)))
+        print('}')
+        for k in sorted(wmeas):
+            print('        # worst window %s/%s q=%g: %.2f  %s' % (k[0], k[1], k[2], wmeas[k][0], wmeas[k][1]))
+    return st_
+
+
 def run(tier):
     chk = vlib.Check(PID, tier, 'exploration')
     exe = exe_()
@@ -280,6 +454,9 @@ def run(tier):
                                 m['case'] = mkcase(GAP_RATE, ch, mode, q, n, m['sig'])
                                 batch.append(m)
     members.append(('gap', batch))
+    # submission-schedule slice (third): the same configuration/signal under every submission schedule
+    members.append(('sched', sched_members(tier)))
+    only = os.environ.get('VERIF_C06_ONLY')    # experiments: run one batch only (reported as a cut, non-exhaustive run)
     for li in range(len(lengths(tier, 8000))):
         fam = family(tier, li)
         for cls in ('ck', 'sw', 'nz', 't2d', 't2x', 't2', 'b2', 'b5', 't5'):
@@ -306,6 +483,7 @@ def run(tier):
     meas = {}     # (cls, mode, qi) -> min snr ; also per rate
     series = {}   # (cls, sig, ch, rate, mode, n) -> {qi: snr}
     done_batches, cut = [], []
+    sched_stats = None
     samples = []
     ratios = {}
     rawf = None
@@ -315,8 +493,17 @@ def run(tier):
     peaks = []
     failing = []
     for bname, batch in members:
-        if time.time() - t_enum > budget:
+        if time.time() - t_enum > budget or (only and bname != only):
             cut.append(bname)
+            continue
+        if bname == 'sched':
+            t_s = time.time()
+            sched_stats = run_sched(chk, exe, tier, batch, measure, samples)
+            nviol += sched_stats['violations']
+            done_batches.append(bname)
+            if tier == 'quick':
+                budget += min(time.time() - t_s, 60.0)   # quick: the slice comes on top of the enumeration budget of the main family (thorough: inside the budget)
+            print('  C06 batch %s: %d members, t=%.0fs' % (bname, len(batch), time.time() - chk.t0), file=sys.stderr, flush=True)
             continue
         if vlib.SEED:
             import random
@@ -466,6 +653,8 @@ def run(tier):
         stats['min_id_margin'] = None
     stats['skipped'] = {'%d:%s:%s' % k: n for k, n in sorted(skipped.items())}
     chk.cov.update(stats)
+    if sched_stats:
+        chk.cov['schedule_axis'] = sched_stats
     chk.cov['samples'] = samples
     chk.cov['batches_complete'] = done_batches
     chk.cov['batches_not_run'] = cut
@@ -484,7 +673,12 @@ def run(tier):
         'aperiodic structure (click trains, sweeps, noise, Hann-windowed bursts) and there only on channels whose INPUT autocorrelation has a unique peak (peak / second local maximum >= %g, a property of the signal alone); '
         'lags inside the flat top of the input autocorrelation (>= 98%% of its peak; 0 for all broadband members) count as 0. Stationary chords have a periodic, ambiguous correlation peak and are NOT used for alignment. '
         'A violating member is re-executed against a variant in which local_book_besterror clamps its value; violations that disappear there carry the key enc_besterror_clamp:... '
-        'distinct_nontrivial = distinct (signal class, channels, rate, quality, managed) tuples with at least one member that passed every judged predicate') % UNIQUE
+        'SUBMISSION-SCHEDULE AXIS: a slice of the grid (%s) is encoded under every submission schedule of %s (pieces handed to vorbis_analysis_buffer/vorbis_analysis_wrote; B = blocksizes[1], D = 2B, E = centerW+2B, H = N/2, R = rest, x<n> = n each, G = 1,2,4,..), '
+        'signal length > 6 x blocksizes[1]; every (configuration, signal, schedule) is judged by all predicates above and, for every complete 1024-sample window that starts at or after 2 x blocksizes[1], by a windowed SNR floor (continuous classes) '
+        'and by a differential bound against the same window under 1024-sample submissions (cov.schedule_axis). '
+        'distinct_nontrivial = distinct (signal class, channels, rate, quality, managed) tuples with at least one member that passed every judged predicate') % (
+            UNIQUE, ('16 configurations covering 1/2/3/6 channels at 8000/22050/44100/96000 Hz, q in (0,0.5,1) and -0.1, VBR and ABR, x 4 signals (sweep, noise, clicks, two-tone)' if tier == 'quick' else
+                     'all rates x channels x qualities x (VBR, ABR) plus q=-0.1 at 44100 Hz mono/stereo, x 9 signals (sweeps, noise, clicks, burst, two-/five-tone)') + ', plus members of 70001 samples', list(S.schedules(tier)))
     chk.assumptions += [
         'finite family only: "for any input signal" is out of reach; nothing is claimed about signals outside the enumerated family',
         'the SNR floor is a regression-style table (measured minimum minus 6 dB, monotone in q; see the comment at FLOOR); the property only demands that such a quality-dependent, tightening bound exists',
@@ -493,7 +687,13 @@ def run(tier):
         'ABR members exist only where the bitrate-managed set-up succeeds (the 50-200 kHz template has no bitrate map: ABR at 96000 Hz is not a successfully configured setting and is skipped)',
         'in the 5.1 template (6 ch, 40-50 kHz) channel 5 is the LFE channel, low-passed at ~250 Hz by design; its test content stays below 200 Hz (up to 260 Hz in the LFE-content slice) and it is excluded from the lag and SNR predicates but not from finiteness, peak (global and its own) and identity',
         'over-range (:x) members are judged for finiteness, peak, identity only (the residue books clip beyond their range by design)',
-        'input and output are compared over the decoded range (the exact sample count is property C04)']
+        'input and output are compared over the decoded range (the exact sample count is property C04)',
+        'submission schedules: the decoded output of two schedules of one signal/configuration is NOT required to be bit-identical (the start-of-stream LPC pre-extrapolation is computed from whatever has been submitted when it runs, and the envelope search / '
+        'block-size decisions and the bitrate reservoir see a different look-ahead; measured on the unchanged tree: %s). Required instead, in every complete 1024-sample window that starts at or after 2 x blocksizes[1] (non-LFE channels): '
+        '(1) continuous band-limited classes, windows within 20 dB of the mean window energy: SNR against the input >= windowed floor(class, mode, q) = minimum measured over the thorough schedule slice on the unchanged tree minus 6 dB, non-decreasing in q; '
+        '(2) all classes: error energy (in-out) <= error energy of the same window under 1024-sample submissions + %s dB (largest value measured on the unchanged tree + 3 dB; error energies 60 dB below the mean window energy count as equal). '
+        'The first 2 x blocksizes[1] samples are judged only through the whole-signal predicates.' % (SCHED_DIFF_MEASURED, SCHED_DIFF_DB),
+        'negative-quality members of the schedule slice (q=-0.1, blocks 512/4096, 44100 Hz mono/stereo) have no whole-signal SNR floor table; they carry the windowed floor, the differential bound and all other predicates']
     if not measure:
         chk.guard(table_ok, 'SNR floor table present and non-decreasing in q for every (class, mode)')
     # coverage-count guards describe the complete enumeration; a run cut by its deadline (exhaustive:false, batches_not_run listed) is only
@@ -504,6 +704,20 @@ def run(tier):
         chk.guard(stats['long_to_short_members'] >= 100, '>=100 members contained a long->short block transition')
         chk.guard(len(passed) >= 100 or nviol > 0, 'at least 100 distinct configurations passed')
     chk.guard('lfe' in done_batches, 'the LFE-content slice was completed')
+    if sched_stats:
+        ss, bys = sched_stats, sched_stats['by_schedule']
+        wtab_ok = SCHED_DIFF_DB is not None and all(c in WFLOOR and mo in WFLOOR[c] and all(WFLOOR[c][mo][a] <= WFLOOR[c][mo][b] for a, b in zip(sorted(WFLOOR[c][mo]), sorted(WFLOOR[c][mo])[1:])) for c in S.CONTINUOUS for mo in MODES)
+        if not measure:
+            chk.guard(wtab_ok, 'schedule axis: windowed SNR floor table present and non-decreasing in q for every (class, mode); differential bound set')
+        chk.guard(all(b['cases'] >= 1 for b in bys.values()) and ss['cases_ok'] + ss['cases_skipped'] == ss['cases'] and ss['groups_all_schedules_ok'] + ss['groups_skipped_by_encoder_setup'] == ss['groups'] and ss['cases_skipped_other_than_abr_at_96000'] == 0,
+                  'schedule axis: every schedule kind was executed; every (configuration, signal) group produced a result under every schedule (only ABR at 96000 Hz refused by the encoder set-up)')
+        chk.guard(sum(b['buffered_at_preextrapolation_gt_centerW_plus_2_long'] for b in bys.values()) >= 1 and bys['R']['buffered_at_preextrapolation_gt_centerW_plus_2_long'] == bys['R']['cases'],
+                  'schedule axis: at least one schedule (every whole-signal submission) left more than centerW + 2 x blocksizes[1] samples buffered when the pre-extrapolation ran / at the first blockout')
+        chk.guard(all(list(bys[sc]['buffered_minus_centerW_minus_2_long']) == [k] for sc, k in (('D-1,x1024', '-1'), ('D,x1024', '0'), ('D+1,x1024', '1'))) and '>2' not in bys[S.REF]['buffered_minus_centerW_minus_2_long'],
+                  'schedule axis: the D-1 / D / D+1 schedules left exactly centerW + 2 x blocksizes[1] -1 / +0 / +1 samples buffered at the pre-extrapolation, the reference schedule never more than that + 2')
+        chk.guard(ss['length_gt_6_long_blocks'] == ss['cases_ok'] and ss['far_windows'] > 0 and ss['snr_windows_judged'] > 0 and ss['diff_windows_judged'] > 0 and bys['x65536']['submissions_max'] >= 2,
+                  'schedule axis: every member is longer than 6 x blocksizes[1]; windows beyond 2 x blocksizes[1] were judged against the floor and against the reference schedule; a member longer than 65536 samples exists')
+        chk.guard(ss['lag_judged'] >= 0.5 * ss['cases_ok'] and ss['id_judged'] >= 0.5 * ss['cases_ok'], 'schedule axis: alignment and channel identity judged on at least half of the schedule members')
     chk.guard('gap' not in done_batches or stats['gap_pairs_judged'] >= 72, '>=72 level-gap pairs (quiet channel next to loud / silent neighbours) were judged')
     chk.guard(stats['max_input_crosscorr'] < 0.5, 'input channels carry distinct content (max normalised cross-correlation between input channels < 0.5)')
     chk.guard(stats['lfe_content_members_negative_q_blocks_512_4096'] >= 32, '>=32 LFE-content members ran at negative quality with block sizes 512/4096 (LFE residue beyond the LFE floor range) and had their LFE peak judged')
@@ -515,6 +729,18 @@ def replay(path):
     r = json.load(open(path))
     exe = exe_()
     m = r['replay']['member']
+    if m.get('sched'):
+        # schedule member: the case and the same signal/configuration under the reference schedule
+        out = vlib.run_cases(exe, [m['case'], m['ref_case']], jobs=1)
+        print((out[0] or '').split(' ws=')[0])
+        print((out[1] or '').split(' ws=')[0])
+        refw = S.parse_windows(parse(out[1])) if (out[1] or '').startswith('ok ') and ' ws=' in out[1] else None
+        st, v, info, w, view = judge_sched(m, out[0], refw)
+        if view:
+            print('windows judged from %d to %d; min windowed SNR %s at (channel, window) %s; max error growth against %s: %s dB at %s' % (view['k0'], view['nw'] - 1, view['min_snr'], view['min_at'], S.REF, view['max_deficit'], view['deficit_at']))
+        for key, desc in v:
+            print('STILL FAILS', key, desc)
+        return 1 if (v or st == 'bad' or refw is None) else 0
     out = vlib.run_cases(exe, [r['replay']['case']], jobs=1)
     st, v, info = judge(m, out[0])
     print(out[0])
